@@ -28,7 +28,8 @@ TRUSTED = [
 WRAPPERS = ["Vec", "Option", "Map", "MapKey", "Array", "Slice", "Wrap", "Box"]
 LEAVES = ["()", "u8", "u16", "u32", "U53", "OffsetDateTime", "T", "Vec<u8>", "String"]
 PY_ONLY_LEAVES = ["Stamp"]           # a simple type the Python configuration maps to `datetime`
-POSITIONS = ["field", "field_default", "payload", "alias", "variant_field", "variant_field_default"]
+POSITIONS = ["field", "field_default", "payload", "alias", "variant_field", "variant_field_default", "field_foreign",
+             "variant_field_foreign"]
 UNSIGNED = {"u8", "u16", "u32", "U53"}
 
 CFG = {
@@ -98,7 +99,13 @@ TAG_ATTR = m_list("serde", [m_nv("tag", lit_s("type")), m_nv("content", lit_s("c
 DEFAULT_ATTR = m_list("serde", [m_path("default")])
 
 
-def make_items(entries, tag=""):
+def foreign_override(lang):
+    """a per-field type override addressed to a back end other than the one that is generating: it must change nothing"""
+    other = "swift" if lang == "kotlin" else "kotlin"
+    return m_list("typeshare", [m_list(other, [m_nv("type", lit_s("Ov"))])])
+
+
+def make_items(entries, tag="", lang=None):
     """entries: list of (position, chain, leaf).  Fields of the same kind share one struct / one enum variant.
     Returns (items, description) where the description lists what the parser will see."""
     gens = ["T"] if any(leaf == "T" for _, _, leaf in entries) else []
@@ -109,6 +116,16 @@ def make_items(entries, tag=""):
         syn, tree = build(chain, leaf)
         if "Wrap" in chain:
             desc["wrap"] = True
+        if pos.endswith("_foreign"):
+            # same as the plain position, the field only carries an override for another language
+            pos = pos[:-len("_foreign")]
+            fa = [foreign_override(lang)]
+            if pos == "field":
+                sfields.append(field(fa, "f%d" % n, syn))
+            else:
+                vfields.append(field(fa, "f%d" % n, syn))
+            desc["fields"].append((tree, False, gens))
+            continue
         if pos in ("field", "field_default"):
             sfields.append(field([DEFAULT_ATTR] if pos.endswith("default") else [], "f%d" % n, syn))
             desc["fields"].append((tree, pos.endswith("default"), gens))
@@ -149,7 +166,7 @@ NEUTRAL = {"attrs": [], "items": [{"kind": "struct", "attrs": [TS_ATTR], "ident"
 
 
 def make_case(entries, lang, multi, trigger_first=True, cfg=None):
-    items, desc = make_items(entries)
+    items, desc = make_items(entries, lang=lang)
     f = {"attrs": [], "items": items}
     cfg = dict(CFG[lang] if cfg is None else cfg)
     if not multi:
